@@ -229,7 +229,23 @@ def p5(ctx: Ctx):
                 if typer.expr_is_set(n.args[0], local_sets(fn)):
                     n_iter += 1
                     where = f"{(class_of(n).name + '.') if class_of(n) else ''}{fn.name if fn else '<module>'}"
-                    ctx.ob(f"{where}:sorted({unparse(n.args[0])})", True, file=m.rel, line=n.lineno, facts={"kind": "sorted"})
+                    keyf = next((k.value for k in n.keywords if k.arg == "key"), None)
+                    okk = True
+                    if keyf is not None:
+                        # ties of a key function keep the set's iteration order: the key has to contain the element itself
+                        okk = False
+                        if isinstance(keyf, ast.Lambda) and len(keyf.args.args) == 1:
+                            a0 = keyf.args.args[0].arg
+                            b = keyf.body
+                            okk = (isinstance(b, ast.Name) and b.id == a0) or (isinstance(b, ast.Tuple) and any(isinstance(e, ast.Name) and e.id == a0 for e in b.elts))
+                    ctx.ob(
+                        f"{where}:sorted({unparse(n.args[0])})",
+                        okk,
+                        "" if okk else f"`{unparse(n)}` sorts a set by a key that does not contain the element itself: elements with equal keys stay in the set's iteration order, which follows the string hash seed",
+                        file=m.rel,
+                        line=n.lineno,
+                        facts={"kind": "sorted"},
+                    )
             for it, site, kind in its:
                 fn = func_of(site)
                 loc = local_sets(fn)
@@ -291,8 +307,33 @@ def p5(ctx: Ctx):
                     line=fn.lineno,
                 )
         # cross-call state: module-level mutable containers mutated inside functions / class-level containers
-        mutable_globals = {k for k, v in m.assigns.items() if isinstance(v, (ast.List, ast.Dict, ast.Set)) or (isinstance(v, ast.Call) and call_name(v) in ("list", "dict", "set", "defaultdict", "OrderedDict"))}
+        mutable_globals = {
+            k
+            for k, v in m.assigns.items()
+            if isinstance(v, (ast.List, ast.Dict, ast.Set, ast.ListComp, ast.DictComp, ast.SetComp))
+            or (isinstance(v, ast.Call) and call_name(v) in ("list", "dict", "set", "defaultdict", "OrderedDict", "bytearray"))
+            or (isinstance(v, ast.BinOp) and isinstance(v.op, ast.Mult) and (isinstance(v.left, ast.List) or isinstance(v.right, ast.List)))
+        }
         for fn in [x for x in ast.walk(m.tree) if isinstance(x, (ast.FunctionDef,))]:
+            # a local that is just another name for a module-level container
+            aliases = {}
+            for a in ast.walk(fn):
+                if isinstance(a, ast.Assign) and isinstance(a.value, ast.Name) and a.value.id in mutable_globals:
+                    for t in a.targets:
+                        if isinstance(t, ast.Name):
+                            aliases[t.id] = (a.value.id, a.lineno)
+            for n in ast.walk(fn):
+                tgt = None
+                if isinstance(n, (ast.Assign, ast.AugAssign)):
+                    for t in (n.targets if isinstance(n, ast.Assign) else [n.target]):
+                        if isinstance(t, ast.Subscript) and isinstance(t.value, ast.Name) and t.value.id in aliases:
+                            tgt = t.value.id
+                if isinstance(n, ast.Call) and isinstance(n.func, ast.Attribute) and isinstance(n.func.value, ast.Name) and n.func.value.id in aliases and n.func.attr in ("append", "add", "update", "extend", "insert", "pop", "remove", "clear", "setdefault", "discard", "sort", "reverse"):
+                    tgt = n.func.value.id
+                if tgt is not None:
+                    g, ln = aliases[tgt]
+                    ctx.ob(f"{m.rel}:{fn.name}:{g}:alias", False, f"`{tgt}` is bound to the module-level container `{g}` (line {ln}) without copying it and is then modified: what one call writes is still there at the next call in the same process", file=m.rel, line=n.lineno)
+                    break
             for n in ast.walk(fn):
                 if isinstance(n, ast.Global):
                     ctx.ob(f"{m.rel}:{fn.name}:global", False, f"`global {', '.join(n.names)}`: state carried between calls", file=m.rel, line=n.lineno)
